@@ -38,6 +38,14 @@ def subexprs(e):
 def main():
     c = Check("C02")
     c.static_theorems()
+    # dimension laws up to identity, also after a new fundamental dimension has been defined (fresh process: define re-keys every dimension)
+    dl = impl("dimlaws_worker.py", {"define": [["vf currency", "VFC"], ["vf flavour", "VFF"]]})
+    for k, v in dl.items():
+        if k != "fails":
+            for i in range(v): c.count(["dimlaw", k, i], nontrivial=True)
+    for f in dl["fails"][:40]:
+        c.violation(f"dimension-law:{f[0].split('-')[0]}:{f[1]}", f"dimension law {f[1]} fails ({f[0]}): {f[2:]}", {"when": f[0], "law": f[1], "operands": f[2:],
+                    "how": "harness/impl/dimlaws_worker.py: Dimension.define(name, symbol) in a fresh process, then the identities a*b is b*a, a/b is a*b**-1, ... on existing derived dimensions"})
     exp = impl("export_worker.py", {})
     prefixes = exp["prefix_by_name"]
     names = [n for n in G.NAMES if n in exp["unit_by_name"]]
